@@ -95,6 +95,12 @@ class FortranGen:
                 return Pow(Const(self.pick([-1.5, -2.0, -0.5, -7.0], "nb")), 2 + t.draw(2, "pw"))
             return Pow(self.g_real(D, depth - 1, counters), 2 + t.draw(2, "pw"))
         if k == 4:
+            if t.chance(0.35, "nestedif"):
+                # a conditional expression nested in a branch of another one
+                inner = IfX(self.g_cond(D, 0), self.g_real(D, 0, counters), self.g_real(D, 0, counters))
+                other = self.g_real(D, 0, counters)
+                return IfX(self.g_cond(D, 0), inner, other) if t.chance(0.5, "nestthen") else \
+                    IfX(self.g_cond(D, 0), other, inner)
             return IfX(self.g_cond(D, 0), self.g_real(D, depth - 1, counters), self.g_real(D, depth - 1, counters))
         if k == 5:
             a = self.pick(sorted(arrs), "a")
@@ -202,7 +208,7 @@ class FortranGen:
                     tgt = op[1][0]
                     n_res = self.types[tgt][1]
                     cands = [x for x in SC_TEMPS if self.cls.get(x, "inexact") == "inexact"]
-                    rd = "<state>r" if ("<state>r" in self.types and t.chance(0.5, "rdpers")) else \
+                    rd = "<state>r" if ("<state>r" in self.types and t.chance(0.85, "rdpers")) else \
                         self.new_name(cands, "real", D)
                     if rd is not None:
                         self.cls[rd] = "inexact"
@@ -292,6 +298,9 @@ class FortranGen:
             self.counter_range = {"i": (0, n)}
             D.discard(a)
             init_e = self.g_real(D, 1, counters=("i",))
+            uts_ = self.of(D, "ut")
+            if uts_ and t.chance(0.3, "utinloop"):
+                init_e = Bin("+", init_e, Bin("*", Var("i"), Call("<builtin>norm_2", [Var(self.pick(uts_, "lu"))])))
             out = [("call", (a,), Call("<builtin>array", [Const(n)]), self.mode()),
                    ("assign", a, Var("i"), init_e, [("i", Const(0), Const(n))], self.mode())]
             D.add(a)
@@ -401,7 +410,7 @@ class FortranGen:
                 out = [("assign", tgt, None, e, [], self.mode())]
                 # read the first and last element right away (array bounds of the result matter)
                 cands = [x for x in SC_TEMPS if self.cls.get(x, "inexact") == "inexact"]
-                if "<state>r" in self.types and t.chance(0.5, "rdpers"):
+                if "<state>r" in self.types and t.chance(0.85, "rdpers"):
                     rd = "<state>r"
                 else:
                     rd = self.new_name(cands, "real", D)
@@ -496,7 +505,7 @@ class FortranGen:
                 self.exact.add("<state>s")
                 sc.state0["s"] = float(self.pick(SMALL, "s0"))
                 self.pers_real.append("<state>s")
-            if t.chance(0.6, "state_r"):
+            if t.chance(0.8, "state_r"):
                 self.types["<state>r"] = "real"
                 sc.state0["r"] = float(self.pick(SMALL + [1e-05, -3.0], "r0"))
                 self.pers_real.append("<state>r")
